@@ -89,7 +89,10 @@ func (man *chunkManager) OnChunkConsumed(chunk base.LogChunk) {
 
 func (man *chunkManager) OnChunkLeftover(chunk base.LogChunk) {
 	man.logger.Debugf("save leftover id=%s len=%d", chunk.ID, len(chunk.Data))
-	man.operator.UnloadChunk(&chunk)
+	if !man.UnloadOrDropChunk(&chunk) {
+		// could not be saved (space limit or IO error): it is lost and has been counted as dropped, not as leftover
+		return
+	}
 	man.metrics.pendingChunks.Dec()
 	man.metrics.leftoverChunksTotal.Inc()
 }
